@@ -119,6 +119,8 @@ def work(job):
                 os.makedirs(tmpdir)
             elif label == "tmpdir-is-the-source-dir":
                 tmpdir = os.path.join(box.proj, "src")
+            elif label == "tmpdir-empty-string":
+                tmpdir = ""           # TMPDIR= (set but empty): std::env::temp_dir() is then the empty path, i.e. the current directory
             elif label == "tmpdir-relative":
                 tmpdir = "reltmp"
                 os.makedirs(os.path.join(box.proj, "reltmp"))
@@ -147,7 +149,7 @@ def work(job):
                 fired_fail = real_fail
                 fired = real_fail
         finally:
-            if tmpdir:
+            if tmpdir and os.path.isabs(tmpdir):
                 import shutil
                 shutil.rmtree(tmpdir, ignore_errors=True)
     if rec.timed_out:
@@ -194,7 +196,7 @@ def main(tier):
             jobs.append((built, pi, proj, expected, label, rules, kind, False))
         jobs.append((built, pi, proj, expected, "real-exdev-tmpdir", None, "exdev", True))
         for envlabel in ("tmpdir-non-utf8-name", "tmpdir-missing", "tmpdir-is-a-file", "tmpdir-with-spaces-and-unicode",
-                         "tmpdir-is-the-source-dir", "tmpdir-relative"):
+                         "tmpdir-is-the-source-dir", "tmpdir-relative", "tmpdir-empty-string"):
             jobs.append((built, pi, proj, expected, envlabel, "n=999999,act=delay:0", "env", False))
         # faults on the lock reservation / final lock write (generic clauses only) and an update fault followed by a stop signal
         lockops = [o for o in ops if fault.phase_of(o).startswith("lock-") and o["kind"] in ("openw", "write", "rename")]
